@@ -648,6 +648,12 @@ class Renderer:
             d.append((b'Filter', ('name', b'FlateDecode')))
             d.append((b'DecodeParms', ('dict', [(b'Predictor', ('int', 12)), (b'Columns', ('int', sum(W)))])))
         data, _ = self.stream_obj(xid[0], xid[1], d, enc, 'direct')
+        if rev.opts.get('junk_before_xstm') and not hybrid_part:
+            # garbage-then-xref-stream: the start of an indirect object that does not end, glued in front of the
+            # xref-stream object, and startxref / the newer /Prev pointing AT THE GARBAGE.  IndirectP fails there only
+            # after having moved the cursor up to the xref-stream object.
+            self.sect_off[-1] = len(self.b)
+            self.item('G', rev.opts['junk_before_xstm'])
         it = self.item('T', data, id=xid, ents=flat, root=root, prev=prev)
         for e in flat:
             self.mentioned.add((e[0], e[1]))
